@@ -66,14 +66,53 @@ theorem restore_roundtrip (cfg : Cfg) (src : List (String × Port)) (st : BState
   cases h1
   exact ⟨r, h2, h3⟩
 
-/-- **a rejected document names the failing entry and the switches are back on**: whatever the document and the
-state, after PUT /ports polling (`updating`) and event delivery (`events`) are enabled — the `finally:` — and an error
-carries the id of an entry of the document whose restore step failed. -/
-theorem reject_names_entry_and_reenables (cfg : Cfg) (st : BState) (docs : List PortDoc) :
-    (putPorts cfg st docs).1.updating = true ∧ (putPorts cfg st docs).1.events = true ∧
-    ∀ id e, (putPorts cfg st docs).2 = .err id e →
-      ∃ d ∈ docs, d.id = id ∧ ∃ tgt, restoreOn cfg tgt d = .error e :=
-  ⟨rfl, rfl, fun id e h => putBody_err_names_entry cfg _ docs id e h⟩
+/-- **a rejected document names the failing entry and the switches are back on** — for all three restore calls.
+PUT /ports: whatever the document and the state, afterwards polling (`updating`) and event delivery (`events`) are
+enabled — the `finally:` — and an error carries the id of an entry of the document whose restore step failed.
+PUT /devices: the same switches are on afterwards, and an error carries the index of the FIRST entry that fails the
+entry schema (every earlier entry is acceptable). PUT /device: a rejected document changes nothing at all — it
+validates before it touches anything and never uses the switches. -/
+theorem reject_names_entry_and_reenables (cfg : Cfg) (st : BState) (docs : List PortDoc)
+    (sdocs : List (Option (String × Slave))) (ddoc : Option DeviceDoc) :
+    ((putPorts cfg st docs).1.updating = true ∧ (putPorts cfg st docs).1.events = true ∧
+      ∀ id e, (putPorts cfg st docs).2 = .err id e →
+        ∃ d ∈ docs, d.id = id ∧ ∃ tgt, restoreOn cfg tgt d = .error e) ∧
+    ((putSlavesDoc st sdocs).1.updating = true ∧ (putSlavesDoc st sdocs).1.events = true ∧
+      ∀ i, (putSlavesDoc st sdocs).2 = .err i →
+        sdocs[i]? = some none ∧ ∀ m, m < i → ∃ x, sdocs[m]? = some (some x)) ∧
+    ((putDeviceDoc st ddoc).2 = false → (putDeviceDoc st ddoc).1 = st) := by
+  refine ⟨⟨rfl, rfl, fun id e h => putBody_err_names_entry cfg _ docs id e h⟩, ⟨rfl, rfl, ?_⟩, ?_⟩
+  · intro i h
+    simp only [putSlavesDoc] at h
+    cases hf : firstInvalid sdocs 0 with
+    | none => rw [hf] at h; cases h
+    | some j =>
+      rw [hf] at h
+      simp only [SlavesResp.err.injEq] at h
+      subst h
+      have := firstInvalid_spec sdocs 0 j hf
+      simpa using this.2
+  · intro h
+    cases ddoc with
+    | none => rfl
+    | some d => simp [putDeviceDoc] at h
+
+/-- a document of acceptable entries with distinct names is accepted by PUT /devices and leaves exactly the listed
+slave devices -/
+theorem restore_slaves_doc (st : BState) (docs : List (String × Slave)) :
+    (putSlavesDoc st (docs.map some)).2 = .ok ∧
+    (putSlavesDoc st (docs.map some)).1.slaves = (putSlaves st docs).slaves := by
+  have hf : firstInvalid (docs.map some) 0 = none :=
+    firstInvalid_none _ 0 (fun d hd => by
+      simp only [List.mem_map] at hd
+      obtain ⟨x, _, rfl⟩ := hd
+      exact fun h => by cases h)
+  have hm : (docs.map some).filterMap id = docs := by
+    induction docs with
+    | nil => rfl
+    | cons a r ih => simp
+  simp only [putSlavesDoc, hf, hm]
+  exact ⟨trivial, rfl⟩
 
 /-- PUT /device restores the names and keeps the target's password hashes -/
 theorem restore_device (st : BState) (a : Device) :
@@ -149,6 +188,22 @@ def emptyState : BState :=
 /-- a document whose second entry is refused (virtual port without definition): the error names `v2` -/
 example : errId (putPorts demoCfg emptyState
     [docOf "v1" demoPort, { id := "v2", virtual := true, vdef := none, attrs := [], value := none }]).2 = some "v2" := by
+  decide +kernel
+
+/-- the value of an entry is decided AFTER its attributes have been applied: an entry that enables a (non-virtual,
+writable) port which is disabled on the target still gets its value written -/
+def relayDef : PortDef :=
+  { virtual := false, writable := true, vdef := none, defaults := [("enabled", .bool false), ("tag", .str "")],
+    initial := none }
+
+def valueAfter (r : Except EntryErr (Option Port)) : Option PVal :=
+  match r with
+  | .ok (some p) => p.value
+  | _ => none
+
+example : valueAfter (restoreOn demoCfg (some (fresh relayDef))
+    { id := "relay", virtual := false, vdef := none, attrs := [("enabled", .bool true), ("tag", .str "t")],
+      value := some (.num 40) }) = some (.num 40) := by
   decide +kernel
 
 end QtVerif.C20
